@@ -271,3 +271,25 @@ pub fn backward_compatible(new: &[MethodSig], old: &[MethodSig]) -> Result<(), S
     }
     Ok(())
 }
+
+impl Family {
+    /// number of bytes of the documented serialized form of a value (used only to classify
+    /// calls by how they fill the 64-byte inline argument buffer)
+    pub fn wire_len(&self, t: &DTy, x: &DV, v: u32) -> usize {
+        match (t, x) {
+            (DTy::Prim(p), _) => p.wire_size(),
+            (DTy::Str, DV::S(s)) => 8 + s.len(),
+            (DTy::Unit, _) => 0,
+            (DTy::Opt(a), DV::V(_, xs)) => 1 + xs.iter().map(|y| self.wire_len(a, y, v)).sum::<usize>(),
+            (DTy::Vec(a), DV::L(xs)) => 8 + xs.iter().map(|y| self.wire_len(a, y, v)).sum::<usize>(),
+            (DTy::Tuple(ts), DV::L(xs)) => ts.iter().zip(xs).map(|(t, y)| self.wire_len(t, y, v)).sum(),
+            (DTy::Boxed(a), _) => self.wire_len(a, x, v),
+            (DTy::Def(i), _) => match (&self.defs[*i].kind, x) {
+                (DKind::Struct(fields), DV::L(xs)) => fields.iter().filter(|f| f.live_at(v)).zip(xs).map(|(f, y)| self.wire_len(&f.ty, y, v)).sum(),
+                (DKind::Enum(vars), DV::V(vi, xs)) => 1 + vars[*vi as usize].fields.iter().zip(xs).map(|(t, y)| self.wire_len(t, y, v)).sum::<usize>(),
+                _ => 0,
+            },
+            _ => 0,
+        }
+    }
+}
